@@ -63,6 +63,9 @@ func buildCase(phase string, i int) (c Case, key string, sample bool) {
 		}
 		c = genRandCase(evidence.RandFor(seedFromEnv(), "c11-multi", i), true)
 		return c, c.pattern(), i%5000 == 3
+	case "fail":
+		c = failCase(i)
+		return c, fmt.Sprintf("fail-%d", i), i%97 == 5
 	default: // rand
 		c = genRandCase(evidence.RandFor(seedFromEnv(), "c11-rand", i), false)
 		return c, c.pattern(), i%5000 == 3
@@ -77,6 +80,10 @@ func runCase(phase string, i int) worker.Result {
 	}
 	res.Key = key
 	switch phase {
+	case "fail":
+		// non-trivial: the failing push had directories made for it (nested title) or the
+		// working directory sits in a chain of empty directories
+		res.NT = c.Chain || strings.Contains(strings.TrimPrefix(c.Pushes[0].Title, "$WD/"), "/")
 	case "titles":
 		t := c.Pushes[0].Title
 		res.NT = strings.Contains(t, "..") || strings.HasPrefix(t, "$") || strings.Contains(t, "in") || strings.Contains(t, "up")
@@ -110,9 +117,9 @@ func main() {
 		return
 	}
 	r := evidence.New("C11", "exploration")
-	r.Rule("case = (pre-population of the working directory ∈ {absent, empty, d, ds, sub, full}: files, directories, inside-pointing symlinks only; 1..n pushes into ONE default-options file.Store: " +
+	r.Rule("case = (pre-population of the working directory ∈ {absent, empty, d, ds, sub, full}: files, directories, inside-pointing symlinks only; working directory at $ROOT/a/wd (siblings victim, outdir, wd.lock, wd-backup/, …) or at the end of a chain of otherwise empty directories $ROOT/e1/e2/wd; 1..n pushes, some made to fail while copying, into ONE default-options file.Store: " +
 		"tar+gzip blob marked for unpacking with a sequence of regular/dir/symlink/hard-link/fifo entries, named blob, or manifest that restores a titled layer); " +
-		"phases: corpus (committed witnesses), titles (all segment sequences over {.., ., \"\", x, in, up, wd} × {relative, $WD/…, $ROOT/a/…} × {blob, archive} × {pre-populated, not yet existing working directory}), " +
+		"phases: corpus (committed witnesses), fail (every title × {wrong digest, short, long, reader error} × {blob, archive} × {wd in a chain of empty directories, normal} × {empty, absent, d}: pushes that fail while copying), titles (all segment sequences over {.., ., \"\", x, in, up, wd, wd.lock, wd-backup} × {relative, $WD/…, $ROOT/a/…} × {blob, archive} × {pre-populated, not yet existing working directory}), " +
 		"exh (ALL sequences over the 25-entry reduced vocabulary up to length 3 quick / 4 thorough), rand (random and corpus-mutated sequences ≤ 10 entries over the full grammar), " +
 		"multi (all vocabulary sequences ≤ 2 quick / ≤ 3 thorough each followed by 13 follow-up pushes, then random multi-push cases); " +
 		"oracle per push: snapshot of everything in the sandbox outside the working directory (type, permission bits, size+SHA-256, link target; TMPDIR may only gain oras_file_*) is unchanged, " +
@@ -158,6 +165,7 @@ func main() {
 		r.Set("cases_"+phase, total)
 	}
 	run("corpus", len(corpus), 8)
+	run("fail", failCount(), 24)
 	run("titles", titleCount(r.N(3, 4)), 400)
 	run("exh", exhCount(exhLen), 1000)
 	multiEnum := exhCount(multiEnumLen())
